@@ -14,6 +14,7 @@ run_demo() { ( cd $WT && bash -c "$DEMO_CMD" ) > $OUT/demo_$1.log 2>&1; rc=$?
 echo "== demo on HEAD" >> $OUT/verify.log; R0=$(run_demo head)
 git apply $D/patch.diff || { echo "patch does not apply" >> $OUT/verify.log; exit 3; }
 echo "== demo with patch" >> $OUT/verify.log; R1=$(run_demo patch)
+git clean -fdq -- boreal/tests boreal-cli/tests boreal-parser/tests 2>/dev/null
 echo "== suite with patch" >> $OUT/verify.log
 cargo nextest run --workspace --no-fail-fast --tool-config-file pb:/w/lib/nextest.toml --profile pb --test-threads 8 --offline 2>&1 | grep -E "^\s+FAIL|Summary" | sort | uniq > $OUT/suite_with_patch.txt
 git checkout -q -- . ; git clean -fdq -- boreal/tests boreal-cli/tests 2>/dev/null
